@@ -3,6 +3,7 @@ package stats
 import (
 	"github.com/thushan/olla/internal/core/domain"
 	"github.com/thushan/olla/internal/zzverif/gosym"
+	"sync"
 )
 
 // VerifGaugeSequential: every sequence of L connection events (+1 / -1) on E endpoints through the
@@ -40,24 +41,27 @@ func VerifGaugeConcurrent() {
 	G := gosym.Param("G")
 	c := NewCollector(zzLog{})
 	e := &domain.Endpoint{Name: "a", URLString: "http://a:1"}
-	opened := 0
+	opened := G
+	var wg sync.WaitGroup
+	wg.Add(G)
 	for i := 0; i < G; i++ {
 		go func() {
+			defer wg.Done()
 			c.RecordConnection(e, 1)
-			opened++
 		}()
 	}
-	gosym.RunPending()
+	wg.Wait()
 	gosym.Assert(opened == G, "all attempts started")
 	gosym.Assert(c.GetConnectionStats()[e.URLString] == int64(G), "with G attempts in flight the gauge reads G (no increment is lost on first contact)")
-	closed := 0
+	closed := G
+	wg.Add(G)
 	for i := 0; i < G; i++ {
 		go func() {
+			defer wg.Done()
 			c.RecordConnection(e, -1)
-			closed++
 		}()
 	}
-	gosym.RunPending()
+	wg.Wait()
 	gosym.Assert(closed == G, "all attempts finished")
 	gosym.Assert(c.GetConnectionStats()[e.URLString] == 0, "the gauge returns to zero when traffic stops")
 	gosym.Reach("end")
